@@ -116,8 +116,9 @@ def check_record(rec, dim, shape, per, dx, x0, idx):
                             fails.append(f"{tag}: translating by {k} cells along periodic axis {a} does not roll the field")
         objs.append((SphericalDroplet(pos, r), DiffuseDroplet(pos, r, wpos)))
     # emulsion = clipped sum, independent of order
-    for which in (0, 1):
-        ds = [o[which] for o in objs]
+    for which in (0, 1, 2):
+        # 2: a mixed emulsion -- a plain spherical droplet first, diffuse ones after it (each keeps its own profile)
+        ds = [o[which] for o in objs] if which < 2 else [objs[0][0]] + [o[1] for o in objs[1:]] + [objs[0][1]]
         em = Emulsion(ds)
         total = em.get_phasefield(grid).data
         ref = np.clip(sum(d.get_phase_field(grid).data for d in ds), 0, 1)
